@@ -26,6 +26,13 @@ Arguments OutOfFuel {A}.
 
 Notation "a == b" := (Ascii.eqb a b) (at level 70, no associativity).
 
+(* what varies: the option charAsString, and which of the repairs of props/C31/fix_*.diff the code contains
+   (o_hex: fix_hex_binary_literals.diff, o_exp: fix_exponent_is_float.diff, o_arrow: fix_arrow_star.diff);
+   all false = the pinned parseNumber / parseStandardLine *)
+Record opts := mkOpts { o_cas : bool; o_hex : bool; o_exp : bool; o_arrow : bool }.
+Definition pinned (cas : bool) : opts := mkOpts cas false false false.
+Definition repaired (cas : bool) : opts := mkOpts cas true true true.
+
 (* ---------------------------------------------------------------- character classes ("C" locale) *)
 Definition code (c : ascii) : N := N_of_ascii c.
 Definition in_range (lo hi : N) (c : ascii) : bool := N.leb lo (code c) && N.leb (code c) hi.
@@ -39,7 +46,8 @@ Definition sep_chars : str :=
 Definition is_separator (c : ascii) : bool := existsb (fun d => c == d) sep_chars.
 Definition sep_or_space (c : ascii) : bool := isspace c || is_separator c.
 Definition is_binary (c : ascii) : bool := (c == "0") || (c == "1").
-Definition is_hex (c : ascii) : bool := in_range 48 55 c || in_range 97 102 c || in_range 65 70 c.
+Definition is_hex (o : opts) (c : ascii) : bool :=
+  in_range 48 (if o_hex o then 57 else 55) c || in_range 97 102 c || in_range 65 70 c.
 Definition is_word_char (c : ascii) : bool := isalpha c || isdigit c || (c == "_").
 
 Definition hd_is (p : ascii -> bool) (s : str) : bool := match s with c :: _ => p c | [] => false end.
@@ -70,6 +78,32 @@ Fixpoint digits_chk (ok : ascii -> bool) (s : str) : option str :=
   match s with
   | [] => Some []
   | c :: tl => if isdigit c then (if ok c then digits_chk ok tl else None) else Some s
+  end.
+
+(* the repaired loops: hexadecimal digits, resp. binary digits, with C++14 digit separators *)
+Fixpoint digits_hq (ok : ascii -> bool) (s : str) : option str :=
+  match s with
+  | [] => Some []
+  | c :: tl =>
+    if ok c then digits_hq ok tl
+    else if c == "'" then
+      match tl with
+      | d :: tl' => if ok d then digits_hq ok tl' else None
+      | [] => None
+      end
+    else Some s
+  end.
+Fixpoint digits_bq (s : str) : option str :=
+  match s with
+  | [] => Some []
+  | c :: tl =>
+    if isdigit c then (if is_binary c then digits_bq tl else None)
+    else if c == "'" then
+      match tl with
+      | d :: tl' => if is_binary d then digits_bq tl' else None
+      | [] => None
+      end
+    else Some s
   end.
 
 Definition isl (c : ascii) := (c == "l") || (c == "L").
@@ -114,7 +148,7 @@ Definition num_udl (s : str) : option str :=
   | [] => Some []
   end.
 
-Definition num_exponent (fl : bool) (s4 : str) : option (bool * str) :=
+Definition num_exponent (o : opts) (fl : bool) (s4 : str) : option (bool * str) :=
   match s4 with
   | [] => Some (fl, s4)
   | c :: t4 =>
@@ -122,7 +156,7 @@ Definition num_exponent (fl : bool) (s4 : str) : option (bool * str) :=
       match t4 with
       | [] => None
       | d :: t5 =>
-        let r := if (d == "+") || (d == "-") then (fl || (d == "-"), t5) else (fl, t4) in
+        let r := if (d == "+") || (d == "-") then (o_exp o || fl || (d == "-"), t5) else (o_exp o || fl, t4) in
         match snd r with
         | [] => None
         | g :: t6 => if isdigit g then (match digits_q t6 with Some s5 => Some (fst r, s5) | None => None end) else None
@@ -134,7 +168,8 @@ Definition num_exponent (fl : bool) (s4 : str) : option (bool * str) :=
 Definition no_dot (s : str) : bool := negb (hd_is (fun c => c == ".") s).
 
 (* after the optional sign and the prefix: [fl] is_float, [hx] hexadecimal, [bn] binary *)
-Definition num_rest (signed fl hx bn : bool) (s2 : str) : option str :=
+Definition is_e (c : ascii) : bool := (c == "e") || (c == "E").
+Definition num_rest (o : opts) (signed fl hx bn : bool) (s2 : str) : option str :=
   match digits_q s2 with
   | None => None
   | Some s3 =>
@@ -145,8 +180,8 @@ Definition num_rest (signed fl hx bn : bool) (s2 : str) : option str :=
     | None => None
     | Some (fl1, s4) =>
       if negb (no_dot s4) then None
-      else if (match s4 with [] => false | _ => hx || bn end) then None
-      else match num_exponent fl1 s4 with
+      else if (match s4 with [] => false | c4 :: _ => if o_hex o then bn && is_e c4 else hx || bn end) then None
+      else match num_exponent o fl1 s4 with
            | None => None
            | Some (fl2, s5) =>
              if negb (no_dot s5) then None
@@ -163,35 +198,37 @@ Definition num_rest (signed fl hx bn : bool) (s2 : str) : option str :=
     end
   end.
 
-Definition num_after_sign (signed : bool) (s1 : str) : option str :=
+Definition num_after_sign (o : opts) (signed : bool) (s1 : str) : option str :=
   match s1 with
   | [] => None
   | c :: t1 =>
     if negb (isdigit c || (c == ".")) then None
     else if c == "." then
-      (if hd_is isdigit t1 then num_rest signed true false false t1 else None)
+      (if hd_is isdigit t1 then num_rest o signed true false false t1 else None)
     else if c == "0" then
       match t1 with
-      | [] => num_rest signed false false false []
+      | [] => num_rest o signed false false false []
       | x :: t2 =>
-        if x == "b" then
+        if (x == "b") || (o_hex o && (x == "B")) then
           (if hd_is is_binary t2
-           then match digits_chk is_binary t2 with Some r => num_rest signed false false true r | None => None end
+           then match (if o_hex o then digits_bq t2 else digits_chk is_binary t2) with
+                | Some r => num_rest o signed false false true r | None => None end
            else None)
-        else if x == "x" then
-          (if hd_is is_hex t2
-           then match digits_chk is_hex t2 with Some r => num_rest signed false true false r | None => None end
+        else if (x == "x") || (o_hex o && (x == "X")) then
+          (if hd_is (is_hex o) t2
+           then match (if o_hex o then digits_hq (is_hex o) t2 else digits_chk (is_hex o) t2) with
+                | Some r => num_rest o signed false true false r | None => None end
            else None)
-        else num_rest signed false false false s1
+        else num_rest o signed false false false s1
       end
-    else num_rest signed false false false s1
+    else num_rest o signed false false false s1
   end.
 
 (* returns the remaining text after the literal *)
-Definition parse_number (s : str) : option str :=
+Definition parse_number (o : opts) (s : str) : option str :=
   match s with
   | [] => None
-  | c :: tl => if (c == "-") || (c == "+") then num_after_sign (c == "-") tl else num_after_sign false s
+  | c :: tl => if (c == "-") || (c == "+") then num_after_sign o (c == "-") tl else num_after_sign o false s
   end.
 
 (* ---------------------------------------------------------------- parseString / parseChar *)
@@ -257,8 +294,8 @@ Definition scan_c_comment (first : bool) (t2 : str) : scan :=
   | None => let len := rstrip_len cs in SComment (x + sp) len (length cs - len) f true
   end.
 
-Definition scan_number (s : str) : scan :=
-  match parse_number s with
+Definition scan_number (o : opts) (s : str) : scan :=
+  match parse_number o s with
   | Some r => SPlain (pred (length s - length r)) Number
   | None => SErr
   end.
@@ -289,22 +326,23 @@ Definition join2 (x y : ascii) (tl : str) : scan :=
 Definition psep (prevc : option ascii) : bool := match prevc with None => true | Some c => sep_or_space c end.
 
 (* one iteration of the loop of parseStandardLine, at the non-space character c followed by tl *)
-Definition scan_token (cas first : bool) (prevc : option ascii) (c : ascii) (tl : str) : scan :=
+Definition scan_token (cas : opts) (first : bool) (prevc : option ascii) (c : ascii) (tl : str) : scan :=
   if c == "#" then
     match tl with [] => SErr | d :: _ => if isalpha d then SPlain 0 Standard else SErr end
   else if c == "\" then
     match tl with [] => SPlain 0 Standard | _ => SErr end
-  else if isdigit c then scan_number (c :: tl)
+  else if isdigit c then scan_number cas (c :: tl)
   else if (c == "R") && hd_is (fun d => d == """") tl then SUnsup
   else if c == """" then scan_string """" tl
-  else if c == "'" then (if cas then scan_string "'" tl else scan_char tl)
+  else if c == "'" then (if o_cas cas then scan_string "'" tl else scan_char tl)
   else if c == "<" then join2 "<" "=" tl
   else if c == ">" then join2 ">" "=" tl
   else if c == ":" then join1 ":" tl
   else if (c == "+") || (c == "-") then
     if hd_is (fun d => d == c) tl then SPlain 1 Standard
-    else if (c == "-") && hd_is (fun d => d == ">") tl then SPlain 1 Standard
-    else if psep prevc && hd_is (fun d => (d == ".") || isdigit d) tl then scan_number (c :: tl)
+    else if (c == "-") && hd_is (fun d => d == ">") tl then
+      (if o_arrow cas && hd_is (fun d => d == "*") (List.tl tl) then SPlain 2 Standard else SPlain 1 Standard)
+    else if psep prevc && hd_is (fun d => (d == ".") || isdigit d) tl then scan_number cas (c :: tl)
     else join1 "=" tl
   else if c == "/" then
     if hd_is (fun d => d == "/") tl then scan_cxx_comment first (List.tl tl)
@@ -312,7 +350,7 @@ Definition scan_token (cas first : bool) (prevc : option ascii) (c : ascii) (tl 
     else join1 "=" tl
   else if (c == "*") || (c == "%") || (c == "!") || (c == "=") then join1 "=" tl
   else if c == "&" then join1 "&" tl
-  else if c == "." then (if hd_is isdigit tl then scan_number (c :: tl) else join2 "." "*" tl)
+  else if c == "." then (if hd_is isdigit tl then scan_number cas (c :: tl) else join2 "." "*" tl)
   else if c == "|" then join2 "|" "=" tl
   else if sep_or_space c then SPlain 0 Standard
   else SPlain (length (take_while (fun d => negb (sep_or_space d)) tl)) Standard.
@@ -324,7 +362,7 @@ Definition last_char (s : str) (d : option ascii) : option ascii :=
 
 (* [o] offset of [rest] in the line, [prevc] the character before [rest] (None at the position b of the code),
    [first] = tokens.empty().  Returns the tokens of the line and whether a C comment is left open. *)
-Fixpoint std_loop (fuel : nat) (cas : bool) (ln : nat) (first : bool) (prevc : option ascii) (o : nat) (rest : str)
+Fixpoint std_loop (fuel : nat) (cas : opts) (ln : nat) (first : bool) (prevc : option ascii) (o : nat) (rest : str)
   : result (list token * bool) :=
   match fuel with
   | 0 => OutOfFuel
@@ -375,7 +413,7 @@ Definition pp_keywords : list str :=
 Definition str_eqb (a b : str) : bool := if list_eq_dec ascii_dec a b then true else false.
 
 (* splitLine after the treatment of an open comment: [rest] is the remaining text of the line at offset [o] *)
-Definition line_body (cas : bool) (ln : nat) (first : bool) (prevc : option ascii) (o : nat) (rest : str)
+Definition line_body (cas : opts) (ln : nat) (first : bool) (prevc : option ascii) (o : nat) (rest : str)
   : result (list token * bool) :=
   let ws := count_space rest in
   match skipn ws rest with
@@ -415,7 +453,7 @@ Definition append_value (t : token) (s : str) : token :=
   mkTok (match tvalue t with [] => s | v => v ++ "010" :: s end) (tline t) (toffset t) (tcomment t) (tflag t).
 
 (* state: the tokens so far in REVERSE order, and cStyleCommentOpened *)
-Definition split_line (cas : bool) (ln : nat) (st : list token * bool) (line : str) : result (list token * bool) :=
+Definition split_line (cas : opts) (ln : nat) (st : list token * bool) (line : str) : result (list token * bool) :=
   let '(acc, opened) := st in
   let continue (acc : list token) (prevc : option ascii) (o : nat) (rest : str) :=
     match line_body cas ln (match acc with [] => true | _ => false end) prevc o rest with
@@ -442,7 +480,7 @@ Fixpoint split_nl (cur_rev : str) (s : str) : list str :=
   | c :: tl => if c == "010" then rev cur_rev :: split_nl [] tl else split_nl (c :: cur_rev) tl
   end.
 
-Fixpoint lex_lines (cas : bool) (ln : nat) (st : list token * bool) (lines : list str) : result (list token) :=
+Fixpoint lex_lines (cas : opts) (ln : nat) (st : list token * bool) (lines : list str) : result (list token) :=
   match lines with
   | [] => Ok (rev (fst st))
   | l :: ls =>
@@ -455,7 +493,7 @@ Fixpoint lex_lines (cas : bool) (ln : nat) (st : list token * bool) (lines : lis
   end.
 
 (* CxxTokenizer::parseString(s) *)
-Definition lex (cas : bool) (s : str) : result (list token) := lex_lines cas 1 ([], false) (split_nl [] s).
+Definition lex (cas : opts) (s : str) : result (list token) := lex_lines cas 1 ([], false) (split_nl [] s).
 
 (* ---------------------------------------------------------------- stripComments *)
 Definition add_comment (nl : bool) (t : token) (s : str) : token :=
